@@ -213,6 +213,7 @@ type BlockSpec struct {
 	Version   string       `json:"version,omitempty"`   // protocol version, default 0.14.0
 	Timestamp uint64       `json:"timestamp,omitempty"` // default: block number
 	Txs       [][]Ev       `json:"txs,omitempty"`       // one invoke v3 transaction per entry with its events
+	TxSeed    uint64       `json:"tx_seed,omitempty"`   // when non-zero, replaces the block number in the invoke nonces (forces equal tx hashes in different blocks)
 	L1        []L1Msg      `json:"l1,omitempty"`        // L1-handler transactions (after the invokes)
 	DeclareV1 []SierraDecl `json:"declare_v1,omitempty"`
 	Migrate   []SierraDecl `json:"migrate,omitempty"` // needs Version >= 0.14.1 and a class declared below 0.14.1
@@ -254,12 +255,25 @@ func (d *Diff) String() string {
 	return avList(d.Deploy) + " " + avList(d.Replace) + " " + avList(d.Nonce) + " " + st + " " + listOrDash(d.Decl)
 }
 
-// ModelDiff is the diff as the state model sees it: Sierra declarations are class declarations too.
+// ModelDiff is the diff as the state models see it: Sierra declarations are class declarations too,
+// and writes to the system contracts 0x1 / 0x2 (not modelled) are left out.
 func (b *BlockSpec) ModelDiff() *Diff {
-	if len(b.DeclareV1) == 0 {
+	hasSys := false
+	for _, e := range b.Diff.Store {
+		hasSys = hasSys || IsSysAddr(e.A)
+	}
+	if len(b.DeclareV1) == 0 && !hasSys {
 		return &b.Diff
 	}
 	d := b.Diff.Clone()
+	if hasSys {
+		d.Store = d.Store[:0]
+		for _, e := range b.Diff.Store {
+			if !IsSysAddr(e.A) {
+				d.Store = append(d.Store, e)
+			}
+		}
+	}
 	for _, s := range b.DeclareV1 {
 		d.Decl = append(d.Decl, Hex(SierraHash(s.ID)))
 	}
